@@ -575,7 +575,7 @@ def run_cursor(run, P, units=('coap_net.c', 'coap_ws.c', 'coap_tcp.c', 'coap_io.
         ctx = solve(f, Env({'cur': ()}), on_event, None, keys, R, key_fn=lambda e: e.ts.get('cur'))
         run.stats['stream_cursor_steps'] += ctx.steps
         run.oblige('R-STREAM-ADV', True, '%s:cursor-analysed' % name)
-    run.require(nf >= 1 or run.fixture_mode, 'R-STREAM-ADV(cursor): no function with a parse cursor into a refilled receive buffer found')
+    run.require_count(nf >= 1 or run.fixture_mode, 'R-STREAM-ADV(cursor): no function with a parse cursor into a refilled receive buffer found')
 
 
 # ---------------------------------------------------------------------------------------------------------------
@@ -753,7 +753,7 @@ def run_needed_len(run, P):
                                   (short(ev['e']['l']), short(ev['e'])[:40], (hit[0] or '').rsplit('/', 1)[-1]), ctx.path())
             return None
         solve(f, Env(), on_event, None, keys, R, key_fn=lambda e: e.ts.get('tested', ()), on_branch=on_branch)
-    run.require(n >= 1 or run.fixture_mode or run.cfg != 'base', 'R-STREAM-ADV(needed length): no reader that builds up a needed length and compares it with a progress counter found')
+    run.require_count(n >= 1 or run.fixture_mode or run.cfg != 'base', 'R-STREAM-ADV(needed length): no reader that builds up a needed length and compares it with a progress counter found')
 
 
 def run_unit_complete(run, P, fname='coap_read_session', buf_field='read_header'):
@@ -816,7 +816,7 @@ def run_unit_complete(run, P, fname='coap_read_session', buf_field='read_header'
                                   '%s() is handed %s with the length %s, but the condition that decides the header is complete (%s) does not account for %s: the parser is '
                                   'called while those bytes of the header may not have arrived' %
                                   (t['fn'], buf_field, short(L)[:40], short(cond)[:50], ', '.join(names.get(m, m) for m in missing)), [])
-    run.require(n >= 1 or run.fixture_mode or run.cfg != 'base', 'R-STREAM-ADV(unit complete): no parser call on %s found in %s()' % (buf_field, fname))
+    run.require_count(n >= 1 or run.fixture_mode or run.cfg != 'base', 'R-STREAM-ADV(unit complete): no parser call on %s found in %s()' % (buf_field, fname))
 
 
 def run_phase_local(run, P):
@@ -925,4 +925,79 @@ def run_phase_local(run, P):
                     run.violation('R-STREAM-ADV', f['name'], loc, 'phase-local-read-outside-phase:%s' % inits[v][0],
                                   '`%s` reads the local %s on a path that has not assigned it in this call: a call that enters with that phase already done finds the '
                                   'initialiser %d there, the value learnt in the earlier call lives in %s' % (txt, inits[v][0], inits[v][1], field), [])
-    run.require(n >= 1 or run.fixture_mode or run.cfg != 'base', 'R-STREAM-ADV(phase-local): no local that is assigned in one phase and stored into a record field found (expected coap_ws_read: bytes_size)')
+    run.require_count(n >= 1 or run.fixture_mode or run.cfg != 'base', 'R-STREAM-ADV(phase-local): no local that is assigned in one phase and stored into a record field found (expected coap_ws_read: bytes_size)')
+
+
+def run_empty_unit(run, P, fname='coap_read_session', unit_field='partial_pdu', dispatch='coap_dispatch'):
+    """R-STREAM-ADV (a unit with nothing left to wait for is delivered now): the stream reader creates the message object when the header is
+    in and stores the number of bytes still to come (`X->partial_pdu->used_size = size`).  When that number is 0 -- a header-only message:
+    an option-less CSM, Ping, Pong, Release -- the message is complete with the byte just read, and no later byte is owed by the peer.  So
+    on no path does the function return with the unit still pending: from the store, taken with size == 0 (the analysis splits the path
+    there), every path to a return passes the dispatch call or the assignment that clears the unit.  Completing it "when the next byte
+    arrives" makes delivery depend on where the stream was cut: a Ping sent alone is never answered."""
+    run.rule('R-STREAM-ADV')
+    if not P.has(fname):
+        run.require_count(run.fixture_mode or run.cfg != 'base', 'R-STREAM-ADV(empty unit): anchor %s() not found' % fname)
+        return
+    f = P.func(fname)
+    stores = []
+    for b, ev in P.events(f):
+        t = ev['e']
+        if t.get('k') == 'asg' and t.get('op') == '=' and ev.get('top', True):
+            l = strip(t['l'])
+            r = strip(t['r'])
+            if isinstance(l, dict) and l.get('k') == 'mem' and l.get('f') == 'used_size' and isinstance(strip(l.get('b')), dict) and strip(l['b']).get('f') == unit_field \
+               and isinstance(r, dict) and r.get('k') == 'var' and ap(r):
+                stores.append((ev, ap(r)))
+    if not stores:
+        run.require_count(run.fixture_mode or run.cfg != 'base', 'R-STREAM-ADV(empty unit): no store of the remaining size into %s->used_size found in %s()' % (unit_field, fname))
+        return
+    sizes = set(s_[1] for s_ in stores)
+
+    def clears(t):
+        if t.get('k') == 'asg' and t.get('op') == '=':
+            l = strip(t['l'])
+            return isinstance(l, dict) and l.get('k') == 'mem' and l.get('f') == unit_field
+        if t.get('k') == 'call' and t.get('fn') == dispatch:
+            return any(isinstance(strip(a), dict) and strip(a).get('k') == 'mem' and strip(a).get('f') == unit_field for a in t.get('a') or ())
+        return False
+
+    def is_rule_event(ev):
+        return any(ev is s_[0] for s_ in stores) or (ev.get('top', True) and clears(ev['e']))
+    keys, R = relevance(f, is_rule_event, sizes)
+    R = set(R) | sizes
+    rep = set()
+
+    def on_event(ev, env, ctx):
+        t = ev['e']
+        for sev, sz in stores:
+            if ev is sev:
+                lo, hi, ex = env.intf(sz)
+                out = []
+                if lo <= 0 <= hi and 0 not in ex:
+                    e0 = apply_generic(ev, env, R).copy()
+                    e0.set_int(sz, (0, 0, frozenset()))
+                    e0.ts['pend0'] = ev['loc']
+                    out.append(e0)
+                if hi >= 1:
+                    e1 = apply_generic(ev, env, R).copy()
+                    e1.set_int(sz, (max(lo, 1), hi, frozenset(x for x in ex if x >= 1)))
+                    e1.ts['pend0'] = None
+                    out.append(e1)
+                return out or None
+        if env.ts.get('pend0') and ev.get('top', True) and clears(t):
+            e = apply_generic(ev, env, R).copy()
+            e.ts['pend0'] = None
+            return [e]
+        return None
+
+    def on_exit(env, ctx):
+        ok = not env.ts.get('pend0')
+        run.oblige('R-STREAM-ADV', ok, '%s:empty-unit-delivered-at-once' % fname)
+        if not ok and env.ts['pend0'] not in rep:
+            rep.add(env.ts['pend0'])
+            run.violation('R-STREAM-ADV', fname, env.ts['pend0'], 'complete-unit-left-pending',
+                          'the message object is created here with 0 bytes still to come, and the function can return without having dispatched it: a header-only message '
+                          '(Ping, Pong, option-less CSM) is delivered only when the peer happens to send another byte', ctx.path())
+    run.instance('R-STREAM-ADV', '%s: a unit created with nothing left to read is dispatched before the function returns' % fname)
+    solve(f, Env(), on_event, on_exit, keys, R, key_fn=lambda e: (e.ts.get('pend0'), tuple(e.intf(s_)[:2] for s_ in sorted(sizes))))
